@@ -262,12 +262,23 @@ class PolyState(Memory):
     def __init__(self):
         Memory.__init__(self)
         self.live, self.snap = {}, {}
+        self.calls, self.ncalls = {}, 0      # value term of a call -> the atom standing for its latest result
+
+    def called(self, x):
+        """a call effect whose scalar result is opaque (a random draw, a conversion): a fresh atom ("draw", value term, serial)
+        stands for this result until the same call is made again"""
+        r = x.get("ret")
+        if isinstance(r, tuple) and r and r[0] == "call":
+            self.ncalls += 1
+            self.calls[r] = ("draw", r, self.ncalls)
 
     def segment(self, env=None):
         self.snap = dict(self.live)
 
     def read(self, loc):
         val = Memory.read(self, loc)
+        if val is None or (isinstance(val, tuple) and val and val[0] == "part" and val[2] is None):
+            return None                      # something opaque (a float, a pointer) was stored there
         return val if isinstance(val, dict) else {(val,): 1}
 
     def value(self, t, env):
@@ -280,6 +291,10 @@ class PolyState(Memory):
             return {(): c} if c else {}
         if k == "var":
             return self.snap[t] if t in self.snap else {(t,): 1}      # None: the local holds something opaque
+        if k == "call" and t in self.calls:
+            return {(self.calls[t],): 1}
+        if k == "sym":
+            return {(t,): 1}                  # a scalar argument
         if k in ("idx", "fld"):
             return self.read(lvalue_location(t, env))
         if k == "poly":
@@ -305,6 +320,8 @@ class PolyState(Memory):
         if k == "op" and t[1] == "*":
             a, b = self.value(t[2], env), self.value(t[3], env)
             return None if a is None or b is None else _pmul(a, b)
+        if k != "unk" and not any(st_[0] in ("idx", "fld", "var", "call", "unk", "glob") for st_ in sym.subterms(t)):
+            return {(("opaque", t),): 1}      # a function of the scalar arguments only (a float conversion ...): an atom named by its term
         return None
 
     def assign(self, x, env):
@@ -316,22 +333,28 @@ class PolyState(Memory):
             self.live[("var", x["name"], x["id"])] = val
             return
         val = self.value(x["val"], env) if isinstance(x.get("val"), tuple) else None
-        if val is None:
-            raise NotEvaluable("value %s at line %s" % (sym.show(x["val"])[:100] if isinstance(x.get("val"), tuple) else x.get("val"), x.get("l")))
         op = x.get("op") or "="
         key = lvalue_location(x["lv"], env)
+        old = self.read(key) if op != "=" else None
+        if val is None or (op != "=" and old is None):
+            self.write(key, None)            # not a polynomial (a variance, a pointer): opaque, an error only if it is read as a number
+            return
         if op == "=":
             new = val
         elif op in ("+=", "-="):
-            new = lin_add(self.read(key), val, 1 if op == "+=" else -1)
+            new = lin_add(old, val, 1 if op == "+=" else -1)
         elif op == "*=":
-            new = _pmul(self.read(key), val)
+            new = _pmul(old, val)
         else:
             raise NotEvaluable("operator %s at line %s" % (op, x.get("l")))
         self.write(key, new)
 
 
 def show_atom(a):
+    if isinstance(a, tuple) and a and a[0] == "opaque":
+        return "<%s>" % sym.show(a[1])[:40]
+    if isinstance(a, tuple) and a and a[0] == "draw":
+        return "%s#%d" % (sym.show(a[1])[:40], a[2])
     if isinstance(a, tuple) and a and a[0] == "init":
         r, path = a[1]
         s = sym.show(r)
@@ -340,6 +363,8 @@ def show_atom(a):
         for st in path:
             s += "[%d]" % st if isinstance(st, int) else "." + str(st)
         return s
+    if isinstance(a, tuple) and a and isinstance(a[0], str) and all(isinstance(x, int) for x in a[1:]) and len(a) > 1:
+        return "%s(%s)" % (a[0], ",".join(str(x) for x in a[1:]))        # an abstract value of a rule: digit(i), phase(row, j)
     return sym.show(a) if isinstance(a, tuple) and a and isinstance(a[0], str) else str(a)
 
 
@@ -369,3 +394,49 @@ def visited_tuples(pieces, terms_of, env):
                 raise NotEvaluable("term %s at line %s" % (sym.show(ts[vals.index(None)])[:80], p.get("line")))
             out.append(vals)
     return out
+
+
+def dimension_atoms(effs):
+    """the quantities the loop bounds and branch conditions of an effect tree depend on besides loop variables and locals:
+    fields and scalar parameters (maximal non-arithmetic sub-terms)"""
+    out, loopvars = [], set()
+
+    def leaves(t):
+        if not isinstance(t, tuple) or not t or t[0] in ("int", "float", "str", "unk"):
+            return
+        if t[0] == "poly":
+            for m, _c in t[1]:
+                for a in m:
+                    yield from leaves(a)
+        elif t[0] in ("op", "un", "cast", "cond"):
+            for x in t[1:]:
+                if isinstance(x, tuple):
+                    yield from leaves(x)
+        elif t[0] == "call" and t[1] == "$loop_end":
+            for y in t[2][:3]:
+                yield from leaves(y)
+        else:
+            yield t
+
+    def go(es):
+        for x in es:
+            e = x["e"]
+            if e == "loop":
+                loopvars.add(x["var"])
+                for k in ("lo", "hi", "step"):
+                    out.extend(leaves(sym.trip_counts_nonneg(x[k])))
+                go(x["body"])
+                go(x.get("latch") or [])
+            elif e == "if":
+                out.extend(leaves(x["cond"]))
+                go(x["then"])
+                go(x["else"])
+            elif e == "inlined":
+                go(x["body"])
+    go(effs)
+    res = []
+    for a in out:
+        if a in loopvars or a[0] in ("var", "call", "obj", "new") or any(sym.contains(a, lv) for lv in loopvars) or a in res:
+            continue
+        res.append(a)
+    return res
